@@ -27,7 +27,8 @@ META = {
                   "observation = prediction (drift reported) and the contract evaluated by TLC on the recorded runs; chunk/prefix "
                   "independence of the real iterator is sampled (seeded streams incl. 65551-byte messages and embedded "
                   "markers x 13+ schedules x 2 capacities, TLC-generated read schedules included).",
-    "level_note": "Trusted: TLC, the ScriptedReader and the driver's projection (Debug output of the reader, hash31 of slices vs. "
+    "level_note": "The accessors buffer()/capacity() (event peek) and SeekFrom::End are driven after every replayed scenario resp. in the random op "
+                  "sequences and judged by LowMarkBufTrace.tla; half of the iterator runs attach a logger. Trusted: TLC, the ScriptedReader and the driver's projection (Debug output of the reader, hash31 of slices vs. "
                   "source). Narrowed: consume() only within the last fill_buf slice (BufRead contract); seeks stay within [0, source "
                   "length] and only seeks into the window handed out last are required to succeed; prefix independence is checked on "
                   "streams without markers of the *other* framing (auto-detection makes those position dependent by design) and not on "
@@ -252,6 +253,12 @@ def check(ctx):
     cases3 = c.split_cases(tr3)
     report(ctx, v3, cases3, "ChunkTrace.tla", consts3, "tails")
     ctx.extra["tails"] = {k: v for k, v in info3.items() if k not in ("cases", "lines")}
+    ctx.extra["accessor_and_logger_paths"] = {"peeks_buffer_capacity": info1["peeks"], "seek_from_end_calls": info1["seek_end_calls"],
+                                              "iterator_runs_with_logger": info2["iterator_runs_with_logger"] + info3["iterator_runs_with_logger"]}
+    if not ctx.violations:
+        for k, v in ctx.extra["accessor_and_logger_paths"].items():
+            if v == 0:
+                raise c.ToolError("vacuity: path %s never exercised" % k)
     ctx.extra["tails"]["design_conformance"] = {"steps": info3["replayed"], "mismatches": info3["drift"]}
     if not ctx.violations:
         if info3["tail_alone_runs"] == 0 or info3["latched_suffix_runs"] == 0 or info3["claimed_tails"] == 0:
